@@ -137,3 +137,74 @@ pub proof fn lemma_fval_trunc_cong(g: spec_fn(int) -> bool, lim: nat, k: nat, m:
         lemma_mod_mod_pow2(fval(g, lim) as int, m, k);
     }
 }
+
+/// fval is injective on the first k positions
+pub proof fn lemma_fval_injective(f: spec_fn(int) -> bool, g: spec_fn(int) -> bool, k: nat)
+    requires fval(f, k) == fval(g, k)
+    ensures forall|b: int| 0 <= b < k ==> #[trigger] f(b) == g(b)
+    decreases k
+{
+    if k > 0 {
+        let m = (k - 1) as nat;
+        lemma_fval_bound(f, m); lemma_fval_bound(g, m);
+        lemma_pow2_pos(m);
+        let p = pow2(m);
+        // the top bit is the quotient by 2^m, the rest the remainder
+        assert(fval(f, k) == fval(f, m) + b2n(f(k - 1)) * p);
+        assert(fval(g, k) == fval(g, m) + b2n(g(k - 1)) * p);
+        if f(k - 1) != g(k - 1) {
+            if f(k - 1) { assert(fval(f, k) >= p); assert(fval(g, k) < p); } else { assert(fval(g, k) >= p); assert(fval(f, k) < p); }
+            assert(false);
+        }
+        assert(fval(f, m) == fval(g, m));
+        lemma_fval_injective(f, g, m);
+        assert forall|b: int| 0 <= b < k implies #[trigger] f(b) == g(b) by { if b < m { } }
+    }
+}
+/// comparison is decided by the most significant differing position
+pub proof fn lemma_fval_lt_top(f: spec_fn(int) -> bool, g: spec_fn(int) -> bool, k: nat, d: nat)
+    requires d < k, !f(d as int), g(d as int), forall|b: int| d < b < k ==> #[trigger] f(b) == g(b)
+    ensures fval(f, k) < fval(g, k)
+    decreases k
+{
+    let m = (k - 1) as nat;
+    let p = pow2(m);
+    assert(fval(f, k) == fval(f, m) + b2n(f(k - 1)) * p);
+    assert(fval(g, k) == fval(g, m) + b2n(g(k - 1)) * p);
+    if m == d {
+        lemma_fval_bound(f, m);
+        assert(b2n(f(k - 1)) == 0 && b2n(g(k - 1)) == 1);
+        assert(0 * p == 0 && 1 * p == p) by(nonlinear_arith);
+    } else {
+        lemma_fval_lt_top(f, g, m, d);
+        assert(f(k - 1) == g(k - 1));
+        assert(b2n(f(k - 1)) * p == b2n(g(k - 1)) * p);
+    }
+}
+/// the most significant position below k where f and g differ (exists when the values differ)
+pub proof fn lemma_top_diff(f: spec_fn(int) -> bool, g: spec_fn(int) -> bool, k: nat) -> (d: nat)
+    requires fval(f, k) != fval(g, k)
+    ensures d < k, f(d as int) != g(d as int), forall|b: int| d < b < k ==> #[trigger] f(b) == g(b)
+    decreases k
+{
+    if k == 0 {
+        assert(false);
+        0
+    } else if f(k - 1) != g(k - 1) {
+        (k - 1) as nat
+    } else {
+        let m = (k - 1) as nat;
+        assert(fval(f, k) == fval(f, m) + b2n(f(k - 1)) * pow2(m));
+        assert(fval(g, k) == fval(g, m) + b2n(g(k - 1)) * pow2(m));
+        let d = lemma_top_diff(f, g, m);
+        assert forall|b: int| d < b < k implies #[trigger] f(b) == g(b) by { if b < m { } }
+        d
+    }
+}
+/// total order: the values compare like the bits at the top differing position
+pub proof fn lemma_fval_lt_iff(f: spec_fn(int) -> bool, g: spec_fn(int) -> bool, k: nat, d: nat)
+    requires d < k, f(d as int) != g(d as int), forall|b: int| d < b < k ==> #[trigger] f(b) == g(b)
+    ensures (fval(f, k) < fval(g, k)) == g(d as int), fval(f, k) != fval(g, k)
+{
+    if g(d as int) { lemma_fval_lt_top(f, g, k, d); } else { lemma_fval_lt_top(g, f, k, d); }
+}
